@@ -521,11 +521,22 @@ func c07R34(c *Ctx, r *Report) {
 	std := extractHelloParser(stdUnmarshal, func(e ast.Expr) (int64, bool) { v, ok := stdConst[exprName(e)]; return v, ok })
 	// --- repository side ---
 	var pkg = c.ByPath[modPath+"/modules/l4tls"]
+	// the parser and its helpers under their current names (unexported names may have been changed)
+	curParse := "parseRawClientHello"
+	renamed := map[string]string{} // current -> reference spelling
+	for f, ref := range aliasFunc {
+		if f.Pkg != nil && f.Pkg.Pkg.Path() == modPath+"/modules/l4tls" && f.Signature.Recv() == nil {
+			renamed[f.Name()] = ref
+			if ref == "parseRawClientHello" {
+				curParse = f.Name()
+			}
+		}
+	}
 	var repoFn *ast.FuncDecl
 	if pkg != nil {
 		for _, f := range pkg.Syntax {
 			for _, d := range f.Decls {
-				if fd, ok := d.(*ast.FuncDecl); ok && fd.Name.Name == "parseRawClientHello" {
+				if fd, ok := d.(*ast.FuncDecl); ok && fd.Recv == nil && fd.Name.Name == curParse {
 					repoFn = fd
 				}
 			}
@@ -543,7 +554,20 @@ func c07R34(c *Ctx, r *Report) {
 			}
 		}
 	}
+	c07Renamed = renamed
 	repoCopy := inlineGuardedHelpers(c.Fset, repoFn, repoDecls)
+	if len(renamed) > 0 {
+		ast.Inspect(repoCopy, func(n ast.Node) bool {
+			if call, ok := n.(*ast.CallExpr); ok {
+				if id, ok := call.Fun.(*ast.Ident); ok {
+					if ref, ok := renamed[id.Name]; ok {
+						id.Name = ref
+					}
+				}
+			}
+			return true
+		})
+	}
 	repo := extractHelloParser(repoCopy, func(e ast.Expr) (int64, bool) {
 		// by name: the parser is analysed on a copy with its guarded helpers inlined
 		if id, ok := e.(*ast.Ident); ok {
@@ -758,6 +782,8 @@ func c07R5(c *Ctx, r *Report, rule string) {
 // where helper is a function of the same package that reports success as a bool, is replaced by the helper's body
 // (its parameters replaced by the argument expressions, `return false` by the guard's return, the final `return true`
 // dropped). The agreement rules then see the parser as if the helper had not been extracted.
+var c07Renamed = map[string]string{}
+
 func inlineGuardedHelpers(fset *token.FileSet, fn *ast.FuncDecl, decls map[string]*ast.FuncDecl) *ast.FuncDecl {
 	clone := func(fd *ast.FuncDecl) *ast.FuncDecl {
 		var buf bytes.Buffer
@@ -796,7 +822,14 @@ func inlineGuardedHelpers(fset *token.FileSet, fn *ast.FuncDecl, decls map[strin
 			return nil, false
 		}
 		id, ok := call.Fun.(*ast.Ident)
-		if !ok || strings.HasPrefix(id.Name, "readUint") || decls[id.Name] == nil || depth > 1 {
+		if !ok {
+			return nil, false
+		}
+		canon := id.Name
+		if ref, has := c07Renamed[id.Name]; has {
+			canon = ref
+		}
+		if strings.HasPrefix(canon, "readUint") || decls[id.Name] == nil || depth > 1 {
 			return nil, false
 		}
 		h := clone(decls[id.Name])
